@@ -17,11 +17,11 @@ import gen
 from common import fx, unfx, enc_list, dec_list, close
 from props import c01, c07
 
-REQUIRED = ['perm_invariant', 'perm_invariant_strata', 'perm_invariant_counts', 'frame_perm_invariant',
-            'relabel_invariant', 'relabel_invariant_counts',
-            'iptw_weight_flip', 'flip_treatment', 'flip_measures', 'flip_variance',
-            'outcome_affine', 'outcome_affine_variance', 'tmle_unit_affine_pos', 'tmle_unit_affine_neg',
-            'snm_affine', 'snm_flip', 'snm1_affine', 'score_reparam', 'score_reparam_affine']
+REQUIRED = ['perm_invariant', 'perm_invariant_strata', 'perm_invariant_snm', 'perm_invariant_counts',
+            'frame_perm_invariant', 'relabel_invariant', 'relabel_invariant_counts', 'iptw_weight_flip',
+            'flip_treatment', 'flip_measures', 'flip_variance', 'flip_frame', 'outcome_affine',
+            'outcome_affine_variance', 'tmle_unit_affine_pos', 'tmle_unit_affine_neg', 'tmle_ate_affine', 'snm_affine',
+            'snm1_affine', 'snm_flip', 'score_reparam', 'score_reparam_affine']
 RULE = ('pairs (data set, transformed data set) for each estimator class of the property: data = 2 categorical '
         'covariates + one continuous covariate X associated with treatment and outcome, binary or normal outcome, '
         'optionally MAR-missing outcomes (combined sample/target data for the generalize classes, wide 2-3 period '
@@ -167,7 +167,7 @@ def allclose(a, b, rt, at):
 
 
 # ------------------------------------------------------------------------------------------------ transformations
-INDEX_KINDS = ['shifted', 'shuffled', 'float', 'string', 'dup', 'const', 'named', 'negdesc']
+INDEX_KINDS = ['shifted', 'shuffled', 'float', 'string', 'dup', 'const', 'named', 'negdesc', 'datetime']
 ALL_T = ['perm', 'permkeep'] + INDEX_KINDS + ['affx+', 'affx-', 'relabel', 'flip', 'affy+', 'affy-']
 
 
@@ -190,6 +190,8 @@ def reindex(df, kind, rng):
         out.index = pd.Index(rng.permutation(n) + 7, name='pid')
     elif kind == 'negdesc':
         out.index = -np.arange(n)
+    elif kind == 'datetime':
+        out.index = pd.Timestamp('2020-01-01') + pd.to_timedelta(rng.permutation(n), unit='D')
     else:
         raise KeyError(kind)
     return out
@@ -263,6 +265,18 @@ def tgt_of(spec, tgt):
 
 
 # ------------------------------------------------------------------------------------------------ runners
+def full_rows(df, arr, ycol='Y'):
+    """per-row output of an estimator that drops the rows with an incomplete covariate / treatment
+    (`check_input_data`), put back on the rows of the input frame (NaN for the dropped rows)"""
+    arr = np.asarray(arr, dtype=float)
+    if arr.shape[-1] == len(df):
+        return arr
+    keep = ~df.drop(columns=[ycol]).isna().any(axis=1).values
+    out = np.full(arr.shape[:-1] + (len(df),), np.nan)
+    out[..., keep] = arr
+    return out
+
+
 def run_iptw(df, spec, opt):
     from zepid.causal.ipw import IPTW
     o = Obs()
@@ -270,10 +284,10 @@ def run_iptw(df, spec, opt):
     ipt.treatment_model(COVF, stabilized=opt['stab'], print_results=False)
     if opt.get('miss'):
         ipt.missing_model(OUTF, stabilized=opt['stab'], print_results=False)
-        o.put('ipmw', 'rows', ipt.ipmw)
+        o.put('ipmw', 'rows', full_rows(df, ipt.ipmw))
     ipt.marginal_structural_model('A')
     ipt.fit()
-    o.put('iptw', 'rows', ipt.iptw)
+    o.put('iptw', 'rows', full_rows(df, ipt.iptw))
     if opt['ytype'] == 'binary':
         t = ipt.risk_difference
         o.put('RD', 'diff', t.loc['A', 'RD'])
@@ -298,19 +312,46 @@ def run_iptw(df, spec, opt):
     return o
 
 
-def k_iptw(drv, o, df, spec, opt):
-    ipt = o.est
-    d = ipt.df['__denom__'].values
-    n = np.broadcast_to(np.asarray(ipt.df['__numer__'].values, dtype=float), d.shape)
-    mw = np.ones(len(d)) if ipt.ipmw is None else np.where(np.isnan(ipt.ipmw), 0.0, ipt.ipmw)
-    rep, _ = drv.ask('iptw', c='f', stab=int(opt['stab']), tgt=tgt_of(spec, opt['tgt']), n=enc_list(n, fx),
-                     d=enc_list(d, fx), mw=enc_list(mw, fx), **rows_kw(ipt.df))
+def xargs(rel):
+    """the transformation, as arguments of the model's own transformation functions (Driver/Ops/C08.lean)"""
+    kw = {}
+    if rel.get('perm') is not None:
+        kw['perm'] = enc_list(rel['perm'].tolist(), str)
+    if rel.get('flip'):
+        kw['flip'] = 1
+    if 'c' in rel:
+        kw['yc'], kw['yd'] = fx(rel['c']), fx(rel['d'])
+    return kw
+
+
+def to_orig(arr, rel, n):
+    """per-row values of the transformed run, put back into the row order of the original data"""
+    arr = np.broadcast_to(np.asarray(arr, dtype=float), (n,))
+    if rel.get('perm') is None:
+        return arr
+    out = np.empty(n)
+    out[rel['perm']] = arr
+    return out
+
+
+def k_iptw(drv, o, base, rel, spec, opt):
+    """model: transform the ORIGINAL rows with the model's flipRow / affRow / permutation, feed the transformed
+    run's fitted values (indexed by original row), compare with the transformed run's weights and estimates"""
+    ipt, b = o.est, base.est
+    n = len(b.df)
+    if len(ipt.df) != n or (rel.get('perm') is not None and len(rel['perm']) != n):
+        return None, None      # rows were dropped by check_input_data: the pair is compared by gate D only
+    mw = np.ones(n) if ipt.ipmw is None else np.where(np.isnan(ipt.ipmw), 0.0, ipt.ipmw)
+    rep, _ = drv.ask('xiptw', c='f', stab=int(opt['stab']), tgt=tgt_of(spec, opt['tgt']),
+                     n=enc_list(to_orig(ipt.df['__numer__'].values, rel, n), fx),
+                     d=enc_list(to_orig(ipt.df['__denom__'].values, rel, n), fx), mw=enc_list(to_orig(mw, rel, n), fx),
+                     **rows_kw(b.df), **xargs(rel))
     ok = rep['status'] == 'ok'
     if ok:
         ok = allclose(dec_list(rep['iptw'], unfx), ipt.iptw, 1e-12, 0)
         m1, m0 = unfx(rep['m1']), unfx(rep['m0'])
-        ok = ok and allclose([m1, m0], o['arms'][1], 1e-7, 1e-9)
-    return ok, rep
+        ok = ok and allclose([m1, m0], o['arms'][1], 1e-7, 1e-9 * max(1.0, abs(rel.get('c', 1.0))))
+    return ok, {k: v for k, v in rep.items() if k != 'iptw'}
 
 
 def rows_kw(d, acol='A', ycol='Y', obs=None):
@@ -356,10 +397,13 @@ def run_gf(df, spec, opt):
     return o
 
 
-def k_gf(drv, o, df, spec, opt):
-    g = o.est
-    rep, _ = drv.ask('gform', c='f', tgt=tgt_of(spec, opt['tgt']), q1=enc_list(o.q1, fx), q0=enc_list(o.q0, fx),
-                     **rows_kw(g.gf))
+def k_gf(drv, o, base, rel, spec, opt):
+    g, b = o.est, base.est
+    n = len(b.gf)
+    if len(g.gf) != n or (rel.get('perm') is not None and len(rel['perm']) != n):
+        return None, None
+    rep, _ = drv.ask('xgform', c='f', tgt=tgt_of(spec, opt['tgt']), q1=enc_list(to_orig(o.q1, rel, n), fx),
+                     q0=enc_list(to_orig(o.q0, rel, n), fx), **rows_kw(b.gf), **xargs(rel))
     ok = rep['status'] == 'ok' and allclose([unfx(rep['g1']), unfx(rep['g0'])], o['arms'][1], 1e-10, 1e-12)
     return ok, rep
 
@@ -396,19 +440,21 @@ def run_aiptw(df, spec, opt):
     return o
 
 
-def k_aiptw(drv, o, df, spec, opt):
-    a = o.est
-    if opt.get('miss'):
+def k_aiptw(drv, o, base, rel, spec, opt):
+    a, b = o.est, base.est
+    n = len(b.df)
+    if opt.get('miss') or len(a.df) != n or (rel.get('perm') is not None and len(rel['perm']) != n):
         return None, None
-    rep, _ = drv.ask('aipw', c='f', q1=enc_list(a.df['_pY1_'], fx), q0=enc_list(a.df['_pY0_'], fx),
-                     g1=enc_list(a.df['_g1_'], fx), g0=enc_list(a.df['_g0_'], fx), **rows_kw(a.df))
+    rep, _ = drv.ask('xaipw', c='f', q1=enc_list(to_orig(a.df['_pY1_'], rel, n), fx),
+                     q0=enc_list(to_orig(a.df['_pY0_'], rel, n), fx), g1=enc_list(to_orig(a.df['_g1_'], rel, n), fx),
+                     g0=enc_list(to_orig(a.df['_g0_'], rel, n), fx), **rows_kw(b.df), **xargs(rel))
     ok = rep['status'] == 'ok'
     if ok:
-        y1, y0 = unfx(rep['y1']), unfx(rep['y0'])
+        y1, y0, var = unfx(rep['y1']), unfx(rep['y0']), unfx(rep['var'])
         if opt['ytype'] == 'binary':
-            ok = allclose([y1 - y0, y1 / y0], [o['RD'][1], o['RR'][1]], 1e-9, 1e-12)
+            ok = allclose([y1 - y0, y1 / y0, math.sqrt(var)], [o['RD'][1], o['RR'][1], o['SE(RD)'][1]], 1e-9, 1e-12)
         else:
-            ok = allclose([y1 - y0], [o['ATE'][1]], 1e-9, 1e-12)
+            ok = allclose([y1 - y0, math.sqrt(var)], [o['ATE'][1], o['SE(ATE)'][1]], 1e-9, 1e-12)
     return ok, rep
 
 
@@ -423,7 +469,7 @@ def run_tmle(df, spec, opt):
     t.outcome_model(OUTF, print_results=False)
     t.fit()
     dr_common(o, t, opt['ytype'], True)
-    o.put('gW', 'rowpair', [np.asarray(t.g1W, dtype=float), np.asarray(t.g0W, dtype=float)])
+    o.put('gW', 'rowpair', full_rows(df, [np.asarray(t.g1W, dtype=float), np.asarray(t.g0W, dtype=float)]))
     return o
 
 
@@ -444,6 +490,45 @@ def run_snm(df, spec, opt):
     o.labels = list(s.psi_labels)
     o.est = s
     return o
+
+
+def snm_reference(s, opt):
+    """nuisance layer: the exposure model fitted by the harness with the documented arguments"""
+    d = s.df.copy()
+    wcol = None
+    if s.ipmw is not None:
+        d['_w_'] = s.ipmw
+        wcol = '_w_'
+    d = d.dropna()
+    f = sm.families.family.Binomial()
+    kw = {'freq_weights': d[wcol]} if wcol else {}
+    p = np.asarray(smf.glm('A ~ ' + COVF + ' + B', d, family=f, **kw).fit().predict(d), dtype=float)
+    w = d[wcol].values.astype(float) if wcol else np.ones(len(d))
+    return d, p, w
+
+
+def k_snm(drv, o, base, rel, spec, opt):
+    """model: closed-form estimating equations on the ORIGINAL rows transformed by the model's affY / flipA, with the
+    harness's reference exposure fit; the transformed run's psi must make the residual vanish (np.linalg.solve)"""
+    if not hasattr(base, 'ref'):
+        base.ref = snm_reference(base.est, opt)
+    d, p, w = base.ref
+    D = len(o.labels)
+    vs = [np.ones(len(d)), d['B'].values.astype(float)][:D]
+    kw = {k: v for k, v in xargs(rel).items() if k != 'perm'}
+    rep, _ = drv.ask('snm', c='f', a=enc_list(d['A'].tolist(), lambda v: str(int(v))), y=enc_list(d['Y'], fx),
+                     w=enc_list(w, fx), p=enc_list(p, fx), D=D, psi=enc_list(o['psi'][1].ravel(), fx),
+                     **{'v%d' % k: enc_list(v, fx) for k, v in enumerate(vs)}, **kw)
+    ok = rep['status'] == 'ok'
+    if ok:
+        tol = (2e-3 if opt.get('solver') == 'search' else 1e-7)
+        res, rha = dec_list(rep['resid'], unfx), dec_list(rep['rha'], unfx)
+        ok = all(abs(r) <= tol * max(1.0, abs(h)) for r, h in zip(res, rha))
+        if D == 1:
+            ok = ok and allclose([unfx(rep['psi1'])], o['psi'][1], tol, tol)
+        # domain of the shift / recoding clauses: the modifiers' score equations hold in the reference fit
+        ok = ok and all(abs(m) <= 1e-6 * len(d) for m in dec_list(rep['mods'], unfx))
+    return ok, rep
 
 
 def sample_rows(df, arr, mask):
@@ -467,7 +552,7 @@ def run_ipsw(df, spec, opt):
     return o
 
 
-def k_ipsw(drv, o, df, spec, opt):
+def k_ipsw(drv, o, base, rel, spec, opt):
     e = o.est
     smp = e.sample
     rep, _ = drv.ask('ipsw', c='f', gen=int(opt['gen']), stab=int(opt['stab']),
@@ -494,8 +579,9 @@ def run_gtrans(df, spec, opt):
     return o
 
 
-def k_gtrans(drv, o, df, spec, opt):
+def k_gtrans(drv, o, base, rel, spec, opt):
     e = o.est
+    df = e.df
     d1, d0 = df.copy(), df.copy()
     d1['A'], d0['A'] = 1, 0
     rep, _ = drv.ask('gtrans', c='f', gen=int(opt['gen']), q1=enc_list(e._outcome_model.predict(d1), fx),
@@ -523,8 +609,9 @@ def run_aipsw(df, spec, opt):
     return o
 
 
-def k_aipsw(drv, o, df, spec, opt):
+def k_aipsw(drv, o, base, rel, spec, opt):
     e = o.est
+    df = e.df
     tw = np.ones(len(df)) if e.iptw is None else np.where(np.isnan(e.iptw), 0.0, e.iptw)
     rep, _ = drv.ask('aipsw', c='f', gen=int(opt['gen']), stab=int(opt['stab']), ns=enc_list(e.df['__numer__'], fx),
                      ds=enc_list(e.df['__denom__'], fx), tw=enc_list(tw, fx), q1=enc_list(e._YA1, fx),
@@ -591,8 +678,7 @@ def run_measure(df, spec, opt):
     o = Obs()
     res = obj.results
     inv = {w: v for v, w in spec['codes']['exp'].items()}          # current code -> original code
-    kd, ks, kc = (('diff', 'se', 'cidiff') if cls in ('RD', 'IRD') else
-                  ('inv', 'inv', 'inv') if cls == 'NNT' else ('ratio', 'selog', 'ciratio'))
+    kd, ks, kc = (('diff', 'se', 'cidiff') if cls in ('RD', 'IRD', 'NNT') else ('ratio', 'selog', 'ciratio'))
     for lab in res.index:
         if str(lab).startswith('Ref:'):
             continue
@@ -602,11 +688,12 @@ def run_measure(df, spec, opt):
         o.put('%s[%d]' % (sdcol, orig), ks, row[sdcol])
         o.put('CI[%d]' % orig, kc, [row[lcl], row[ucl]])
     o.put('missing', 'inv', [obj._missing_e, obj._missing_d, obj._missing_ed])
-    o.est = obj
+    o.est, o.frame = obj, df
     return o
 
 
-def k_measure(drv, o, df, spec, opt):
+def k_measure(drv, o, base, rel, spec, opt):
+    df = o.frame
     from scipy.stats import norm
     cls, alpha = opt['cls'], opt['alpha']
     name, col, sdcol, lcl, ucl, fn = c07.CLASSES[cls]
@@ -636,7 +723,7 @@ CLASSES = {
     'TimeFixedGFormula': (run_gf, k_gf, POINT_T + ['affy+', 'affy-']),
     'AIPTW': (run_aiptw, k_aiptw, POINT_T + ['affy+', 'affy-']),
     'TMLE': (run_tmle, None, POINT_T + ['affy+', 'affy-']),
-    'GEstimationSNM': (run_snm, None, POINT_T + ['affy+', 'affy-']),
+    'GEstimationSNM': (run_snm, k_snm, POINT_T + ['affy+', 'affy-']),
     'IPSW': (run_ipsw, k_ipsw, POINT_T),
     'GTransportFormula': (run_gtrans, k_gtrans, POINT_T),
     'AIPSW': (run_aipsw, k_aipsw, POINT_T),
@@ -665,6 +752,8 @@ def make(group, seed, **kw):
     if group == 'point':
         df, covs = point_data(rng, kw['ytype'], kw.get('missing'))
         df['B'] = (rng.uniform(size=len(df)) < 1 / (1 + np.exp(-0.8 * df['X']))).astype(int)
+        if kw.get('xmiss'):                     # incomplete covariate rows (dropped by check_input_data)
+            df.loc[rng.uniform(size=len(df)) < 0.06, 'X'] = np.nan
         spec = {'a': ['A'], 'y': ['Y'], 'x': ['X'], 'cat': covs}
     elif group == 'gen':
         df, covs = gen_data(rng)
@@ -704,13 +793,16 @@ def applies(cls, opt, kind):
 
 
 # ------------------------------------------------------------------------------------------------ gate H
-def ref_equivariant(df, df2, spec, rel, group, opt):
+def ref_equivariant(drv, df, df2, spec, rel, group, opt, kind):
     """reference fits made by the harness on both members of the pair: same fitted values (the assumption about
-    statsmodels the pair comparison rests on)"""
+    statsmodels the pair comparison rests on).  For the point-estimator data the hypothesis of `score_reparam` is
+    measured as well: the transformation acts on the outcome-model design as an invertible linear map M, the
+    reference fit satisfies its score equations, and (Lean `Glm.reparamRow`) so does the re-expressed design."""
     if group in ('frame',):
         return True
     perm = rel.get('perm')
     f = sm.families.family.Binomial()
+    df, df2 = df.reset_index(drop=True), df2.reset_index(drop=True)     # the reference call is about statsmodels only
     if group == 'wide':
         form = 'A1 ~ L1'
     elif group == 'gen':
@@ -727,6 +819,34 @@ def ref_equivariant(df, df2, spec, rel, group, opt):
         q1 = np.asarray(smf.glm('Y ~ ' + OUTF, df).fit().predict(df), dtype=float)
         q2 = np.asarray(smf.glm('Y ~ ' + OUTF, df2).fit().predict(df2), dtype=float)
         ok = ok and allclose(q2, rel['c'] * q1 + rel['d'], 1e-7, 1e-9 * max(1.0, abs(rel['c'])))
+    if ok and drv is not None and group == 'point' and kind in ('affx+', 'affx-', 'relabel', 'flip'):
+        import patsy
+        fam = f if opt.get('ytype') == 'binary' else sm.families.family.Gaussian()
+        d1, d2 = df.dropna(), df2.dropna()
+        X1 = np.asarray(patsy.dmatrix(OUTF, d1))
+        X2 = np.asarray(patsy.dmatrix(OUTF, d2))
+        if X1.shape != X2.shape:
+            return False
+        M = np.linalg.lstsq(X1, X2, rcond=None)[0]
+        ok = np.allclose(X1 @ M, X2, rtol=1e-8, atol=1e-8 * max(1.0, np.abs(X2).max())) and \
+            np.linalg.cond(M) < 1e8
+        y = d1['Y'].values.astype(float)
+        mu = np.asarray(sm.GLM(y, X1, family=fam).fit().predict(X1), dtype=float)
+        mu2 = np.asarray(sm.GLM(d2['Y'].values.astype(float), X2, family=fam).fit().predict(X2), dtype=float)
+        ok = ok and allclose(mu2, mu, 1e-7, 1e-9)
+        pcol = X1.shape[1]
+        cols = {'x%d' % k: enc_list(X1[:, k], fx) for k in range(pcol)}
+        base = dict(c='f', p=pcol, y=enc_list(y, fx), mu=enc_list(mu, fx), w=enc_list(np.ones(len(y)), fx), **cols)
+        r1, _ = drv.ask('score', **base)
+        r2, _ = drv.ask('score', m=enc_list(M.ravel(), fx), **base)
+        scale = 1e-6 * len(y) * max(1.0, np.abs(y).max())
+        ok = ok and r1['status'] == 'ok' and r2['status'] == 'ok'
+        if ok:
+            s1 = np.array(dec_list(r1['score'], unfx))
+            s2 = np.array(dec_list(r2['score'], unfx))
+            ok = bool(np.all(np.abs(s1) <= scale * np.maximum(1.0, np.abs(X1).max(axis=0)))) and \
+                bool(np.all(np.abs(s2) <= scale * np.maximum(1.0, np.abs(X2).max(axis=0)))) and \
+                allclose(s2, X2.T @ (y - mu), 1e-6, scale)
     return ok
 
 
@@ -740,8 +860,9 @@ def tolerance(cls, opt, name, kind, rel):
 
 
 def signature_of(cls, opt, kind, name):
+    quantity = {'SE(logRR)': 'log-RR standard error', 'CI(RR)': 'log-RR standard error'}.get(name, name)
     return {'class': cls, 'transformation': 'index' if kind in INDEX_KINDS else kind.rstrip('+-'), 'attribute': name,
-            'missing': bool(opt.get('miss'))}
+            'quantity': quantity, 'missing': bool(opt.get('miss'))}
 
 
 def compare(chk, cls, opt, kind, base, other, rel, case):
@@ -789,7 +910,7 @@ def run_pairs(chk, drv, cls, opt, seed, kinds, tseed):
         chk.discard('original run failed: %s %s' % (cls, type(ex).__name__))
         return
     if drv is not None and kfun is not None:
-        ok, rep = kfun(drv, base, df, spec, opt)
+        ok, rep = kfun(drv, base, base, {}, spec, opt)
         if ok is not None:
             chk.k(ok, '%s estimates = Lean model on the run\'s own fitted values (original data)' % cls,
                   dict(rec, model=rep))
@@ -809,7 +930,7 @@ def run_pairs(chk, drv, cls, opt, seed, kinds, tseed):
         chk.count('%s/%s' % (cls, kind))
         chk.h_checked += 1
         try:
-            href = ref_equivariant(df, df2, spec, rel, group, opt)
+            href = ref_equivariant(drv, df, df2, spec, rel, group, opt, kind)
         except Exception as ex:
             href = False
         if not href:
@@ -824,10 +945,55 @@ def run_pairs(chk, drv, cls, opt, seed, kinds, tseed):
             continue
         compare(chk, cls, opt, kind, base, other, rel, case)
         if drv is not None and kfun is not None:
-            ok, rep = kfun(drv, other, df2, spec2, opt)
+            ok, rep = kfun(drv, other, base, rel, spec2, opt)
             if ok is not None:
-                chk.k(ok, '%s estimates = Lean model on the run\'s own fitted values (%s data)' % (cls, kind),
+                chk.k(ok, '%s estimates = Lean model (original rows transformed by the model\'s own %s) on the run\'s fitted values' % (cls, kind),
                       dict(case, model=rep))
+
+
+def model_transform_checks(chk, drv, rng, reps):
+    """gate K for the model's own transformation functions (`flipRow`, `affRow`, `relabelRow`, row permutation as
+    executed by op `xstd`, exact rationals): the Lean closed form on the model-transformed rows equals the harness's
+    independent closed form on the python-transformed frame"""
+    from fractions import Fraction
+    names = {'pop1': ('population', 1), 'pop0': ('population', 0), 'exp1': ('exposed', 1),
+             'exp0': ('exposed', 0), 'unx1': ('unexposed', 1), 'unx0': ('unexposed', 0)}
+    for _ in range(reps):
+        seed = int(rng.integers(0, 2 ** 31))
+        df, covs = gen.cat_dataset(np.random.default_rng(seed), outcome='normal', n_extra=int(rng.integers(20, 80)))
+        spec = {'a': ['A'], 'y': ['Y'], 'x': [], 'cat': covs,
+                'codes': {c: {int(v): int(v) for v in sorted(df[c].unique())} for c in covs}}
+        sid = gen.strata_ids(df, covs)
+        base_kw = gen.enc_rows(df, covs)
+        for kind in ('perm', 'relabel', 'flip', 'affy-'):
+            ts = int(rng.integers(0, 2 ** 31))
+            df2, spec2, rel = transform(df, spec, kind, np.random.default_rng(ts))
+            kw = dict(base_kw)
+            if kind == 'perm':
+                kw['perm'] = enc_list(rel['perm'].tolist(), str)
+                cf = gen.closed_form(df2, covs)
+            elif kind == 'relabel':
+                sid2 = gen.strata_ids(df2, covs)
+                phi = {}
+                for a, b in zip(sid.tolist(), sid2.tolist()):
+                    phi[a] = b
+                kw['phi'] = enc_list([phi.get(i, 0) for i in range(max(phi) + 1)], str)
+                cf = gen.closed_form(df2, covs)
+            elif kind == 'flip':
+                kw['flip'] = 1
+                cf = gen.closed_form(df2, covs)
+            else:
+                from common import rq
+                kw['yc'], kw['yd'] = rq(rel['c']), rq(rel['d'])
+                cf0 = gen.closed_form(df, covs)
+                cf = {k: Fraction(rel['c']) * v + Fraction(rel['d']) for k, v in cf0.items()}
+            rep, _ = drv.ask('xstd', **kw)
+            ok = rep['status'] == 'ok' and all(Fraction(rep[k]) == cf[v] for k, v in names.items())
+            if ok and kind == 'perm':
+                ok = int(rep['first']) == int(rel['perm'][0])
+            chk.k(ok, 'Lean std on rows transformed by the model (%s) = independent closed form on the transformed frame '
+                      '(exact)' % kind, {'data_seed': seed, 'transformation': kind, 'transform_seed': ts,
+                                         'model': {k: rep.get(k) for k in ('status', 'pop1', 'pop0', 'strata')}})
 
 
 def cells(tier):
@@ -846,6 +1012,12 @@ def cells(tier):
         out.append(('AIPTW', dict(ytype=yt, miss=True, missing='mar')))
         out.append(('TMLE', dict(ytype=yt)))
         out.append(('TMLE', dict(ytype=yt, miss=True, missing='mar')))
+    out.append(('IPTW', dict(ytype='binary', stab=True, tgt='population', xmiss=True)))
+    out.append(('StochasticIPTW', dict(ytype='binary', p=0.6, xmiss=True, missing='mcar')))
+    out.append(('TimeFixedGFormula', dict(ytype='normal', tgt='exposed', xmiss=True)))
+    out.append(('AIPTW', dict(ytype='normal', xmiss=True)))
+    out.append(('TMLE', dict(ytype='binary', xmiss=True)))
+    out.append(('GEstimationSNM', dict(ytype='normal', snm='A', xmiss=True)))
     out.append(('TMLE', dict(ytype='normal', cb=0.0)))
     out.append(('TMLE', dict(ytype='normal', cb=0.05)))
     for snm in ('A', 'A + A:B'):
@@ -876,17 +1048,13 @@ def run(chk, drv, rng, tier):
     reps = 1 if tier == 'quick' else 6
     cs = cells(tier)
     chk.extra['configuration_cells'] = len(cs)
+    if drv is not None:
+        model_transform_checks(chk, drv, rng, 6 if tier == 'quick' else 40)
     for _ in range(reps):
         for cls, opt in cs:
             seed = int(rng.integers(0, 2 ** 31))
             tseed = int(rng.integers(0, 2 ** 31))
-            if tier == 'quick':
-                # every transformation family for every cell; the eight index kinds are rotated over the cells
-                idx = [INDEX_KINDS[(seed + j) % len(INDEX_KINDS)] for j in range(3)]
-                kinds = ['perm', 'permkeep'] + sorted(set(idx)) + ['affx+', 'affx-', 'relabel', 'flip', 'affy+', 'affy-']
-            else:
-                kinds = ALL_T
-            run_pairs(chk, drv, cls, opt, seed, kinds, tseed)
+            run_pairs(chk, drv, cls, opt, seed, ALL_T, tseed)
 
 
 def replay(rec):
